@@ -3080,3 +3080,14 @@ impl<'a> Visitor<'a> {
         Ok(None)
     }
 }
+
+#[cfg(feature = "verif-hooks")]
+impl<'a> Visitor<'a> {
+    /// The cartesian merge of two media query lists used for nested `@media` rules
+    pub fn verif_merge_media_queries(
+        queries1: &[MediaQuery],
+        queries2: &[MediaQuery],
+    ) -> Option<Vec<MediaQuery>> {
+        Self::merge_media_queries(queries1, queries2)
+    }
+}
